@@ -61,6 +61,8 @@ pub fn region_pred(name: &str, cell: &crate::families::Cell) -> bool {
     let p = &cell.p;
     match name {
         // InverseGaussian: shape/mean < 0.1
+        // Hypergeometric: population so large that ln N! differences carry no information in f64
+        "hypergeometric_N_ge_2^48" => cell.ip.first().map(|&n| n >= (1u64 << 48)).unwrap_or(false),
         "ig_shape_over_mean_lt_0.1" => p.len() >= 2 && p[1] / p[0] < 0.1,
         // the same cancellation seen by the atom test T5 (quantised outputs): visible up to shape/mean ~0.13
         "ig_shape_over_mean_lt_0.2" => p.len() >= 2 && p[1] / p[0] < 0.2,
